@@ -39,6 +39,8 @@ def run(ctx):
                 continue        # the transformations below are sized for unit-scale bases; scale covariance is applied by the check itself
             trs = []
             for pl in palette(6, ctx.tier):
+                if pl.name.startswith("far_"):
+                    continue        # the property speaks of translations of up to ten diameters
                 trs.append((float(pl.s), np.array(fl(pl.R)), np.array(fl(pl.t)), pl.tags()))
             for k in range(3 if quick else 12):
                 s = 10 ** rnd.uniform(-3, 3)
